@@ -1,1 +1,765 @@
-//! stub
+//! Seeded generator of assembler programs for the engines inctree, multibuild and cli.
+//!
+//! The oracles that use these programs are relational (tree vs. flat text, in-history vs. alone,
+//! binary vs. library), so the generator does not need to know what a program assembles to; it
+//! only has to produce programs that (a) mostly build, (b) fail in a chosen way when asked to,
+//! and (c) use names from a small shared pool, so that state leaking between builds or across a
+//! file boundary changes the outcome. Generator hygiene: DESIGN.md appendix A.
+
+use crate::rng::Rng;
+
+#[derive(Clone, Debug)]
+pub enum Node {
+    /// plain lines (no conditional or macro structure crosses the node boundary)
+    Lines(Vec<String>),
+    /// a balanced conditional: head, then-branch, optional (".else" | ".elif e", branch), ".endif"
+    Cond { head: String, then: Vec<Node>, els: Option<(String, Vec<Node>)> },
+    /// a macro definition, atomic
+    Macro(Vec<String>),
+}
+
+#[derive(Clone, Debug)]
+pub struct Program {
+    pub nodes: Vec<Node>,
+    /// what the generator intended ("ok" or the failure kind); informational
+    pub intent: String,
+}
+
+pub fn flatten_nodes(nodes: &[Node], out: &mut Vec<String>) {
+    for n in nodes {
+        match n {
+            Node::Lines(l) => out.extend(l.iter().cloned()),
+            Node::Macro(l) => out.extend(l.iter().cloned()),
+            Node::Cond { head, then, els } => {
+                out.push(head.clone());
+                flatten_nodes(then, out);
+                if let Some((e, b)) = els {
+                    out.push(e.clone());
+                    flatten_nodes(b, out);
+                }
+                out.push(".endif".to_string());
+            }
+        }
+    }
+}
+
+impl Program {
+    pub fn lines(&self) -> Vec<String> {
+        let mut v = vec![];
+        flatten_nodes(&self.nodes, &mut v);
+        v
+    }
+    pub fn text(&self) -> String {
+        let mut s = self.lines().join("\n");
+        s.push('\n');
+        s
+    }
+}
+
+pub const FAIL_KINDS: &[&str] = &[
+    "undef-symbol",
+    "dup-label",
+    "error-directive",
+    "unknown-device",
+    "second-device",
+    "device-forbids-op",
+    "flash-overflow",
+    "ram-overflow",
+    "eeprom-overflow",
+    "db-in-dseg",
+    "instr-in-dseg",
+    "if-undefined",
+    "undef-macro",
+    "parse-error",
+    "branch-range",
+    "byte-range",
+    "undef-def",
+    "macro-case-only",
+];
+
+/// Devices used by generated programs: (name, forbids mul, forbids jmp, avr8l, flash words, ram, eeprom)
+pub const DEVICES: &[(&str, bool, bool, bool, u32, u32, u32)] = &[
+    ("ATtiny13", true, true, false, 512, 64, 64),
+    ("ATtiny2313", true, true, false, 1024, 128, 128),
+    ("ATtiny20", true, true, true, 2048, 128, 0),
+    ("ATmega8", false, true, false, 4096, 1024, 512),
+    ("ATmega48", false, false, false, 2048, 512, 256),
+    ("ATmega328P", false, false, false, 16384, 2048, 1024),
+    ("ATmega103", true, false, false, 65536, 4096, 4096),
+    ("ATmega1280", false, false, false, 65536, 8192, 4096),
+    ("ATmega2560", false, false, false, 262144, 8192, 4096),
+];
+
+/// A family's name pool: programs of one family draw from the same few names, so they collide.
+#[derive(Clone, Debug)]
+pub struct Pool {
+    pub tag: String,
+    pub labels: Vec<String>,
+    pub equs: Vec<String>,
+    pub sets: Vec<String>,
+    pub defs: Vec<String>,
+    pub defines: Vec<String>,
+    pub macros: Vec<String>,
+}
+
+impl Pool {
+    pub fn new(r: &mut Rng) -> Pool {
+        let tag = format!("{}", (b'a' + r.below(17) as u8) as char);
+        let mk = |p: &str, n: usize| -> Vec<String> { (0..n).map(|i| format!("{}{}_{}", p, tag, i)).collect() };
+        Pool { labels: mk("l", 7), equs: mk("k", 5), sets: mk("s", 3), defs: mk("d", 3), defines: mk("F", 4), macros: mk("m", 3), tag }
+    }
+}
+
+#[derive(Clone, Debug)]
+pub struct GenOpts {
+    pub min_blocks: usize,
+    pub max_blocks: usize,
+    pub fail: Option<String>,
+    /// probability (in 1/8) that a .device line is emitted
+    pub device_eighths: u64,
+    pub messages: bool,
+    /// unique tag used in message texts so that messages identify their program
+    pub msg_tag: String,
+}
+
+impl Default for GenOpts {
+    fn default() -> Self {
+        GenOpts { min_blocks: 6, max_blocks: 18, fail: None, device_eighths: 4, messages: true, msg_tag: "p".into() }
+    }
+}
+
+struct Gen<'a> {
+    r: &'a mut Rng,
+    pool: &'a Pool,
+    opts: &'a GenOpts,
+    // names defined so far (textual order)
+    labels_planned: Vec<String>,
+    labels_emitted: Vec<(String, usize)>, // (name, region)
+    equs: Vec<String>,
+    /// equs whose expression is constant at parse time (usable in .if)
+    equs_pure: Vec<String>,
+    no_alias: bool,
+    sets: Vec<String>,
+    defs: Vec<(String, u32)>,
+    defines: Vec<String>,
+    macros: Vec<(String, usize)>, // (name, nparams)
+    device: Option<usize>,
+    region: usize,
+    seg: u8, // 0 code 1 data 2 eeprom
+    msg_n: usize,
+    words_upper: u32,
+    ram_bytes: u32,
+    eep_bytes: u32,
+    uniq: usize,
+}
+
+fn mixed_case(r: &mut Rng, s: &str) -> String {
+    // case-insensitive namespaces are referenced in another case now and then
+    match r.below(6) {
+        0 => s.to_uppercase(),
+        1 => {
+            let mut c = s.chars();
+            match c.next() {
+                Some(f) => f.to_uppercase().collect::<String>() + c.as_str(),
+                None => String::new(),
+            }
+        }
+        _ => s.to_string(),
+    }
+}
+
+impl<'a> Gen<'a> {
+    fn hi_reg(&mut self) -> String {
+        // a high register, sometimes through a .def alias
+        if !self.no_alias && !self.defs.is_empty() && self.r.chance(1, 3) {
+            let (n, _) = self.defs[self.r.usize(self.defs.len())].clone();
+            return mixed_case(self.r, &n);
+        }
+        format!("r{}", self.r.range(16, 31))
+    }
+    fn any_reg(&mut self) -> String {
+        let up = self.r.chance(1, 8);
+        format!("{}{}", if up { "R" } else { "r" }, self.r.range(0, 31))
+    }
+    fn num(&mut self, max: u64) -> String {
+        let v = self.r.below(max + 1);
+        match self.r.below(6) {
+            0 => format!("0x{:x}", v),
+            1 => format!("${:X}", v),
+            2 => format!("0b{:b}", v),
+            3 if v >= 8 => format!("0{:o}", v),
+            _ => format!("{}", v),
+        }
+    }
+    /// an expression with a value that is whatever it is; wrapped by the caller to fit
+    fn expr(&mut self, depth: u32, parse_time: bool) -> String {
+        let leaf = depth == 0 || self.r.chance(2, 5);
+        if leaf {
+            let c = self.r.below(10);
+            if c < 3 && parse_time && !self.equs_pure.is_empty() {
+                let n = self.equs_pure[self.r.usize(self.equs_pure.len())].clone();
+                return mixed_case(self.r, &n);
+            }
+            if c < 3 && !parse_time && !self.equs.is_empty() {
+                let n = self.equs[self.r.usize(self.equs.len())].clone();
+                return mixed_case(self.r, &n);
+            }
+            if c < 5 && !parse_time && !self.labels_planned.is_empty() {
+                let n = self.labels_planned[self.r.usize(self.labels_planned.len())].clone();
+                return mixed_case(self.r, &n);
+            }
+            if c == 5 && !parse_time && !self.sets.is_empty() {
+                return self.sets[self.r.usize(self.sets.len())].clone();
+            }
+            if c == 6 {
+                let ch = [b'a', b'Z', b'0', b'#', b' ', b'q'][self.r.usize(6)] as char;
+                return format!("'{}'", ch);
+            }
+            if c == 7 && !parse_time && self.seg == 0 {
+                return "pc".to_string();
+            }
+            return self.num(300);
+        }
+        let a = self.expr(depth - 1, parse_time);
+        let b = self.expr(depth - 1, parse_time);
+        match self.r.below(16) {
+            0 => format!("({} + {})", a, b),
+            1 => format!("({} - {})", a, b),
+            2 => format!("({}) * {}", a, self.r.range(1, 5)),
+            3 => format!("({} & {})", a, b),
+            4 => format!("({} | {})", a, b),
+            5 => format!("({} ^ {})", a, b),
+            6 => format!("({} << {})", a, self.r.range(0, 7)),
+            7 => format!("({} >> {})", a, self.r.range(0, 7)),
+            8 => format!("({} < {})", a, b),
+            9 => format!("({} == {})", a, b),
+            10 => format!("({} >= {})", a, b),
+            11 => format!("(({}) && ({}))", a, b),
+            12 => format!("(({}) || ({}))", a, b),
+            13 => format!("(-({}))", a),
+            14 => format!("(!({}))", a),
+            _ => format!("({} / {})", a, self.r.range(1, 9)),
+        }
+    }
+    fn byte_expr(&mut self) -> String {
+        let e = self.expr(2, false);
+        let f = ["low", "high", "byte2", "LOW", "byte3"][self.r.usize(5)];
+        format!("{}({})", f, e)
+    }
+    fn word_expr(&mut self) -> String {
+        let e = self.expr(2, false);
+        let f = ["lwrd", "hwrd", "low"][self.r.usize(3)];
+        format!("{}({})", f, e)
+    }
+    fn near_label(&mut self) -> Option<String> {
+        // a label in the current region, emitted in one of the last few blocks or planned next
+        let here: Vec<String> = self.labels_emitted.iter().rev().take(3).filter(|(_, reg)| *reg == self.region).map(|(n, _)| n.clone()).collect();
+        if here.is_empty() {
+            None
+        } else {
+            let n = here[self.r.usize(here.len())].clone();
+            Some(mixed_case(self.r, &n))
+        }
+    }
+    fn comment(&mut self) -> String {
+        match self.r.below(9) {
+            0 => " ; note".to_string(),
+            1 => "\t// c++ style".to_string(),
+            2 => " /* block */".to_string(),
+            _ => String::new(),
+        }
+    }
+    fn instr(&mut self) -> String {
+        let ind = if self.r.chance(1, 5) { "\t" } else { "    " };
+        let mul_ok = self.device.map(|d| !DEVICES[d].1).unwrap_or(true);
+        let jmp_ok = self.device.map(|d| !DEVICES[d].2).unwrap_or(true);
+        let body = loop {
+            match self.r.below(30) {
+                0 => break "nop".to_string(),
+                1 | 2 => break format!("ldi {}, {}", self.hi_reg(), self.byte_expr()),
+                3 => break format!("mov {}, {}", self.any_reg(), self.any_reg()),
+                4 => break format!("add {}, {}", self.any_reg(), self.any_reg()),
+                5 => break format!("subi {}, {}", self.hi_reg(), self.num(255)),
+                6 => break format!("andi {}, {}", self.hi_reg(), self.byte_expr()),
+                7 => break format!("inc {}", self.any_reg()),
+                8 => break format!("push {}", self.any_reg()),
+                9 => break format!("pop {}", self.any_reg()),
+                10 => break format!("eor {}, {}", self.any_reg(), self.any_reg()),
+                11 => break format!("cpi {}, {}", self.hi_reg(), self.num(255)),
+                12 => {
+                    if let Some(l) = self.near_label() {
+                        let b = ["breq", "brne", "brcs", "brcc", "brlo", "brsh", "brmi", "brpl", "brge", "brlt"][self.r.usize(10)];
+                        break format!("{} {}", b, l);
+                    }
+                }
+                13 => {
+                    if let Some(l) = self.near_label() {
+                        break format!("rjmp {}", l);
+                    }
+                }
+                14 => {
+                    if let Some(l) = self.near_label() {
+                        break format!("rcall {}", l);
+                    }
+                }
+                15 => break format!("out {}, {}", self.num(63), self.any_reg()),
+                16 => break format!("in {}, {}", self.any_reg(), self.num(63)),
+                17 => break format!("sbi {}, {}", self.num(31), self.num(7)),
+                18 => break format!("sbrc {}, {}", self.any_reg(), self.num(7)),
+                19 => break ["sei", "cli", "sec", "clc", "ret", "reti", "sleep", "wdr", "set", "clt"][self.r.usize(10)].to_string(),
+                20 => {
+                    let avr8l = self.device.map(|d| DEVICES[d].3).unwrap_or(false);
+                    let a = if avr8l { format!("{}", self.r.range(0x40, 0xbf)) } else { self.word_expr() };
+                    if self.r.chance(1, 2) {
+                        break format!("lds {}, {}", self.any_reg(), a);
+                    } else {
+                        break format!("sts {}, {}", a, self.any_reg());
+                    }
+                }
+                21 => {
+                    if mul_ok && self.r.chance(1, 2) {
+                        break format!("mul {}, {}", self.any_reg(), self.any_reg());
+                    }
+                }
+                22 => {
+                    if jmp_ok && self.r.chance(1, 2) && !self.labels_planned.is_empty() {
+                        let n = self.labels_planned[self.r.usize(self.labels_planned.len())].clone();
+                        break format!("{} {}", if self.r.chance(1, 2) { "jmp" } else { "call" }, n);
+                    }
+                }
+                23 => break format!("ldi {}, low({})", self.hi_reg(), self.expr(1, false)),
+                24 => break format!("tst {}", self.any_reg()),
+                25 => break format!("lsl {}", self.any_reg()),
+                26 => break format!("swap {}", self.any_reg()),
+                27 => break format!("com {}", self.any_reg()),
+                28 => break format!("sbci {}, {}", self.hi_reg(), self.num(255)),
+                _ => break format!("ori {}, {}", self.hi_reg(), self.byte_expr()),
+            }
+        };
+        self.words_upper += 2;
+        // mnemonics are case-insensitive
+        let body = if self.r.chance(1, 10) {
+            let mut it = body.splitn(2, ' ');
+            let m = it.next().unwrap().to_uppercase();
+            match it.next() {
+                Some(rest) => format!("{} {}", m, rest),
+                None => m,
+            }
+        } else {
+            body
+        };
+        format!("{}{}{}", ind, body, self.comment())
+    }
+    fn new_label(&mut self) -> Option<String> {
+        // the next pool label not yet emitted
+        let used: Vec<&String> = self.labels_emitted.iter().map(|(n, _)| n).collect();
+        let free: Vec<String> = self.pool.labels.iter().filter(|l| !used.contains(l)).cloned().collect();
+        if free.is_empty() {
+            self.uniq += 1;
+            return Some(format!("u{}_{}", self.pool.tag, self.uniq));
+        }
+        Some(free[0].clone())
+    }
+    fn msg(&mut self, kind: &str) -> String {
+        self.msg_n += 1;
+        format!(".{} \"{}{}\"", kind, self.opts.msg_tag, self.msg_n)
+    }
+
+    fn code_block(&mut self) -> Node {
+        let mut l = vec![];
+        if self.r.chance(1, 2) {
+            if let Some(n) = self.new_label() {
+                self.labels_emitted.push((n.clone(), self.region));
+                let shown = mixed_case(self.r, &n);
+                if self.r.chance(1, 3) {
+                    let i = self.instr();
+                    l.push(format!("{}:{}", shown, i));
+                } else {
+                    l.push(format!("{}:", shown));
+                }
+            }
+        }
+        for _ in 0..self.r.range(1, 4) {
+            l.push(self.instr());
+        }
+        Node::Lines(l)
+    }
+    fn data_block(&mut self) -> Node {
+        let mut l = vec![];
+        if self.r.chance(1, 2) {
+            if let Some(n) = self.new_label() {
+                self.labels_emitted.push((n.clone(), self.region));
+                l.push(format!("{}:", n));
+            }
+        }
+        match self.r.below(5) {
+            0 => {
+                let s = ["Hello", "ab", "x", "data;1", "A,B", ""][self.r.usize(6)];
+                l.push(format!(".db \"{}\", {}", s, self.num(255)));
+                self.words_upper += 5;
+            }
+            1 => {
+                let n = self.r.range(1, 5);
+                let v: Vec<String> = (0..n).map(|_| self.byte_expr()).collect();
+                l.push(format!(".db {}", v.join(", ")));
+                self.words_upper += 3;
+            }
+            2 => {
+                let n = self.r.range(1, 3);
+                let v: Vec<String> = (0..n).map(|_| self.word_expr()).collect();
+                l.push(format!(".dw {}", v.join(",")));
+                self.words_upper += 3;
+            }
+            3 => {
+                l.push(format!(".dd {}, {}", self.num(300), self.expr(1, false)));
+                self.words_upper += 4;
+            }
+            _ => {
+                l.push(format!(".dq {}", self.expr(2, false)));
+                self.words_upper += 4;
+            }
+        }
+        Node::Lines(l)
+    }
+    fn equ_block(&mut self) -> Node {
+        let free: Vec<String> = self.pool.equs.iter().filter(|e| !self.equs.contains(e)).cloned().collect();
+        if free.is_empty() {
+            return self.code_block();
+        }
+        let n = free[self.r.usize(free.len())].clone();
+        let pure = self.r.chance(1, 2);
+        let e = self.expr(2, pure);
+        self.equs.push(n.clone());
+        if pure {
+            self.equs_pure.push(n.clone());
+        }
+        let d = ".equ"; // directive names are lower-case only in this grammar
+        Node::Lines(vec![format!("{} {} = {}", d, mixed_case(self.r, &n), e)])
+    }
+    fn set_block(&mut self) -> Node {
+        let n = self.pool.sets[self.r.usize(self.pool.sets.len())].clone();
+        // a .set may only use what pass 2 has seen before it: earlier sets are fine
+        let e = self.expr(1, false);
+        if !self.sets.contains(&n) {
+            self.sets.push(n.clone());
+        }
+        Node::Lines(vec![format!(".set {} = {}", n, e)])
+    }
+    fn def_block(&mut self) -> Node {
+        let free: Vec<String> = self.pool.defs.iter().filter(|d| !self.defs.iter().any(|(n, _)| n == *d)).cloned().collect();
+        if free.is_empty() || (!self.defs.is_empty() && self.r.chance(1, 3)) {
+            if !self.defs.is_empty() {
+                let i = self.r.usize(self.defs.len());
+                let (n, _) = self.defs.remove(i);
+                return Node::Lines(vec![format!(".undef {}", n)]);
+            }
+            return self.code_block();
+        }
+        let n = free[0].clone();
+        let reg = self.r.range(16, 31) as u32;
+        self.defs.push((n.clone(), reg));
+        Node::Lines(vec![format!(".def {} = r{}", n, reg)])
+    }
+    fn define_block(&mut self) -> Node {
+        let n = self.pool.defines[self.r.usize(self.pool.defines.len())].clone();
+        if !self.defines.contains(&n) {
+            self.defines.push(n.clone());
+        }
+        let form = if self.r.chance(1, 2) { "#define" } else { ".define" };
+        Node::Lines(vec![format!("{} {}", form, n)])
+    }
+    fn branch_body(&mut self, label: &Option<String>, depth: u32) -> Vec<Node> {
+        // both branches of a conditional define the same label (exactly one is taken)
+        let mut v = vec![];
+        let mut l = vec![];
+        if let Some(n) = label {
+            l.push(format!("{}:", n));
+        }
+        for _ in 0..self.r.range(1, 3) {
+            l.push(self.instr());
+        }
+        if self.opts.messages && self.r.chance(1, 3) {
+            l.push(self.msg("message"));
+        }
+        v.push(Node::Lines(l));
+        if depth > 0 && self.r.chance(1, 3) {
+            v.push(self.cond_block(depth - 1, false));
+        }
+        if self.r.chance(1, 3) {
+            v.push(Node::Lines(vec![self.instr()]));
+        }
+        v
+    }
+    fn cond_block(&mut self, depth: u32, may_define: bool) -> Node {
+        let head = match self.r.below(4) {
+            0 => format!(".ifdef {}", self.pool.defines[self.r.usize(self.pool.defines.len())]),
+            1 => format!(".ifndef {}", self.pool.defines[self.r.usize(self.pool.defines.len())]),
+            2 => format!("#ifdef {}", self.pool.defines[self.r.usize(self.pool.defines.len())]),
+            _ => format!(".if {}", self.expr(1, true)),
+        };
+        let label = if may_define && self.r.chance(1, 2) { self.new_label() } else { None };
+        if let Some(n) = &label {
+            self.labels_emitted.push((n.clone(), self.region));
+        }
+        let then = self.branch_body(&label, depth);
+        let els = if label.is_some() {
+            Some((".else".to_string(), self.branch_body(&label, depth)))
+        } else if self.r.chance(1, 2) {
+            let e = if self.r.chance(1, 3) { format!(".elif {}", self.expr(1, true)) } else { ".else".to_string() };
+            Some((e, self.branch_body(&None, depth)))
+        } else {
+            None
+        };
+        Node::Cond { head, then, els }
+    }
+    fn macro_def(&mut self) -> Node {
+        let free: Vec<String> = self.pool.macros.iter().filter(|m| !self.macros.iter().any(|(n, _)| n == *m)).cloned().collect();
+        if free.is_empty() {
+            return self.code_block();
+        }
+        let n = free[0].clone();
+        let np = self.r.usize(3);
+        let mut l = vec![format!(".macro {}", n)];
+        self.no_alias = true;
+        for _ in 0..self.r.range(1, 3) {
+            match (np, self.r.below(4)) {
+                (0, _) => l.push(self.instr()),
+                (_, 0) => l.push("    ldi @0, 7".to_string()),
+                (2, 1) => l.push("    subi @0, @1".to_string()),
+                (2, 2) => l.push("    cpi @0, low(@1)".to_string()),
+                _ => l.push("    mov r2, @0".to_string()),
+            }
+        }
+        if self.opts.messages && self.r.chance(1, 3) {
+            l.push(self.msg("message"));
+        }
+        if self.r.chance(1, 4) {
+            l.push(format!(".ifdef {}", self.pool.defines[self.r.usize(self.pool.defines.len())]));
+            l.push("    nop".to_string());
+            l.push(".endif".to_string());
+        }
+        l.push(if self.r.chance(1, 2) { ".endm".to_string() } else { ".endmacro".to_string() });
+        self.no_alias = false;
+        self.macros.push((n, np));
+        Node::Macro(l)
+    }
+    fn macro_call(&mut self) -> Node {
+        if self.macros.is_empty() {
+            return self.code_block();
+        }
+        let (n, np) = self.macros[self.r.usize(self.macros.len())].clone();
+        self.words_upper += 8;
+        let line = match np {
+            0 => format!("    {}", n),
+            1 => format!("    {} r{}", n, self.r.range(16, 31)),
+            _ => format!("    {} r{}, {}", n, self.r.range(16, 31), self.num(200)),
+        };
+        Node::Lines(vec![line])
+    }
+    fn dseg_block(&mut self) -> Node {
+        let mut l = vec![".dseg".to_string()];
+        self.seg = 1;
+        for _ in 0..self.r.range(1, 2) {
+            if let Some(n) = self.new_label() {
+                self.labels_emitted.push((n.clone(), usize::MAX));
+                let sz = self.r.range(1, 6) as u32;
+                self.ram_bytes += sz;
+                l.push(format!("{}: .byte {}", n, sz));
+            }
+        }
+        l.push(".cseg".to_string());
+        self.seg = 0;
+        Node::Lines(l)
+    }
+    fn eseg_block(&mut self) -> Node {
+        let mut l = vec![".eseg".to_string()];
+        self.seg = 2;
+        if let Some(n) = self.new_label() {
+            self.labels_emitted.push((n.clone(), usize::MAX));
+            l.push(format!("{}:", n));
+        }
+        match self.r.below(3) {
+            0 => {
+                l.push(format!(".db {}, {}, {}", self.num(255), self.num(255), self.num(255)));
+                self.eep_bytes += 3;
+            }
+            1 => {
+                l.push(format!(".dw {}", self.num(60000)));
+                self.eep_bytes += 2;
+            }
+            _ => {
+                l.push(".byte 2".to_string());
+                l.push(".db \"ee\"".to_string());
+                self.eep_bytes += 4;
+            }
+        }
+        l.push(".cseg".to_string());
+        self.seg = 0;
+        Node::Lines(l)
+    }
+    fn org_block(&mut self) -> Node {
+        // only forward, with a gap that stays inside the smallest device used
+        let target = self.words_upper + self.r.range(1, 24) as u32;
+        self.words_upper = target;
+        self.region += 1;
+        Node::Lines(vec![format!(".org {}", if self.r.chance(1, 2) { format!("0x{:x}", target) } else { format!("{}", target) })])
+    }
+    fn device_line(&mut self) -> Node {
+        // small-flash devices only when the program is still small
+        let cands: Vec<usize> = (0..DEVICES.len()).filter(|i| DEVICES[*i].6 >= 64 || self.eep_bytes == 0).collect();
+        let d = cands[self.r.usize(cands.len())];
+        self.device = Some(d);
+        Node::Lines(vec![format!(".device {}", DEVICES[d].0)])
+    }
+}
+
+/// Generate one program over `pool`.
+pub fn gen(r: &mut Rng, pool: &Pool, opts: &GenOpts) -> Program {
+    let mut g = Gen {
+        r,
+        pool,
+        opts,
+        labels_planned: vec![],
+        labels_emitted: vec![],
+        equs: vec![],
+        equs_pure: vec![],
+        no_alias: false,
+        sets: vec![],
+        defs: vec![],
+        defines: vec![],
+        macros: vec![],
+        device: None,
+        region: 0,
+        seg: 0,
+        msg_n: 0,
+        words_upper: 0,
+        ram_bytes: 0,
+        eep_bytes: 0,
+        uniq: 0,
+    };
+    let nblocks = g.r.range(opts.min_blocks as u64, opts.max_blocks as u64) as usize;
+    let mut nodes: Vec<Node> = vec![];
+    // the device line comes early so that instruction choices know the device
+    let with_device = g.r.below(8) < opts.device_eighths;
+    let device_at = if with_device { g.r.usize(3.min(nblocks)) } else { usize::MAX };
+    // labels that may be referenced from anywhere (value contexts): decided up front, emitted
+    // as the blocks come; whatever is still missing at the end is emitted then.
+    let nplanned = g.r.range(1, 4) as usize;
+    g.labels_planned = pool.labels.iter().take(nplanned).cloned().collect();
+    for b in 0..nblocks {
+        if b == device_at {
+            let d = g.device_line();
+            nodes.push(d);
+        }
+        let n = match g.r.below(24) {
+            0..=6 => g.code_block(),
+            7 | 8 => g.data_block(),
+            9 | 10 => g.equ_block(),
+            11 => g.set_block(),
+            12 => g.def_block(),
+            13 | 14 => g.define_block(),
+            15 | 16 | 17 => g.cond_block(1, true),
+            18 => g.macro_def(),
+            19 | 20 => g.macro_call(),
+            21 => g.dseg_block(),
+            22 => g.eseg_block(),
+            _ => {
+                if g.r.chance(1, 2) {
+                    g.org_block()
+                } else if opts.messages {
+                    let k = if g.r.chance(1, 3) { "warning" } else { "message" };
+                    Node::Lines(vec![g.msg(k)])
+                } else {
+                    g.code_block()
+                }
+            }
+        };
+        nodes.push(n);
+    }
+    // emit planned labels that never appeared
+    let missing: Vec<String> = g.labels_planned.iter().filter(|l| !g.labels_emitted.iter().any(|(n, _)| n == *l)).cloned().collect();
+    for m in missing {
+        g.labels_emitted.push((m.clone(), g.region));
+        nodes.push(Node::Lines(vec![format!("{}:", m), "    ret".to_string()]));
+    }
+    let mut intent = "ok".to_string();
+    if let Some(kind) = &opts.fail {
+        intent = kind.clone();
+        let at = if nodes.is_empty() { 0 } else { g.r.usize(nodes.len() + 1) };
+        let inj: Vec<Node> = match kind.as_str() {
+            "undef-symbol" => vec![Node::Lines(vec![format!("    ldi r16, low({})", pool.equs[pool.equs.len() - 1].clone() + "_nowhere")])],
+            "dup-label" => {
+                let n = g.labels_emitted.first().map(|(n, _)| n.clone()).unwrap_or_else(|| "dupl".to_string());
+                vec![Node::Lines(vec![format!("{}:", n), "    nop".to_string()]), Node::Lines(vec![format!("{}:", n.to_uppercase())])]
+            }
+            "error-directive" => vec![Node::Lines(vec![g.msg("error")])],
+            "unknown-device" => vec![Node::Lines(vec![".device ATnothing99".to_string()])],
+            "second-device" => vec![Node::Lines(vec![".device ATmega48".to_string()]), Node::Lines(vec![".device ATtiny13".to_string()])],
+            "device-forbids-op" => vec![Node::Lines(vec![".device ATtiny13".to_string(), "    mul r1, r2".to_string()])],
+            "flash-overflow" => vec![Node::Lines(vec![".device ATtiny13".to_string(), ".org 0x1ff".to_string(), "    nop".to_string(), "    nop".to_string()])],
+            "ram-overflow" => vec![Node::Lines(vec![".device ATtiny13".to_string(), ".dseg".to_string(), ".byte 65".to_string(), ".cseg".to_string()])],
+            "eeprom-overflow" => vec![Node::Lines(vec![".device ATtiny13".to_string(), ".eseg".to_string(), ".byte 60".to_string(), ".dw 1, 2, 3".to_string(), ".cseg".to_string()])],
+            "db-in-dseg" => vec![Node::Lines(vec![".dseg".to_string(), ".db 1, 2".to_string(), ".cseg".to_string()])],
+            "instr-in-dseg" => vec![Node::Lines(vec![".dseg".to_string(), "    nop".to_string(), ".cseg".to_string()])],
+            "if-undefined" => vec![Node::Cond { head: format!(".if {}_nowhere > 1", pool.equs[0]), then: vec![Node::Lines(vec!["    nop".to_string()])], els: None }],
+            "undef-macro" => vec![Node::Lines(vec![format!("    {}_nowhere r16", pool.macros[0])])],
+            "parse-error" => vec![Node::Lines(vec!["    %% this is not assembler %%".to_string()])],
+            "branch-range" => {
+                let n = format!("far{}_{}", pool.tag, g.r.below(100));
+                vec![Node::Lines(vec![format!("    breq {}", n), ".org pc + 200".to_string()]), Node::Lines(vec![format!("{}:", n), "    nop".to_string()])]
+            }
+            "byte-range" => vec![Node::Lines(vec!["    ldi r16, 300".to_string()])],
+            "undef-def" => vec![Node::Lines(vec![format!("    ldi {}, 1", pool.defs[pool.defs.len() - 1].clone() + "_nowhere")])],
+            // two macros that differ only in case and a call in a third: an error today
+            // ("call undefined macro"), a hash-order lottery in a tree that looks names up
+            // case-insensitively by scanning the table
+            "macro-case-only" => vec![
+                Node::Macro(vec![format!(".macro W{}t", pool.tag), "    ldi r16, 1".to_string(), ".endm".to_string()]),
+                Node::Macro(vec![format!(".macro w{}T", pool.tag), "    ldi r17, 2".to_string(), "    nop".to_string(), ".endm".to_string()]),
+                Node::Lines(vec![format!("    w{}t", pool.tag)]),
+            ],
+            _ => vec![],
+        };
+        // ".org pc + 200" is not constant at parse time in this assembler; use a literal instead
+        let inj: Vec<Node> = inj
+            .into_iter()
+            .map(|n| match n {
+                Node::Lines(l) => Node::Lines(l.into_iter().map(|s| if s == ".org pc + 200" { format!(".org {}", g.words_upper + 400) } else { s }).collect()),
+                o => o,
+            })
+            .collect();
+        let mut at = at.min(nodes.len());
+        // device-dependent failures need their .device to be the first one
+        if matches!(kind.as_str(), "device-forbids-op" | "flash-overflow" | "ram-overflow" | "eeprom-overflow" | "second-device") {
+            nodes.retain(|n| !matches!(n, Node::Lines(l) if l.len() == 1 && l[0].starts_with(".device ")));
+            at = at.min(nodes.len());
+            if kind == "flash-overflow" || kind == "branch-range" {
+                at = nodes.len();
+            }
+        }
+        if kind == "branch-range" {
+            at = nodes.len();
+        }
+        for (i, n) in inj.into_iter().enumerate() {
+            nodes.insert((at + i).min(nodes.len()), n);
+        }
+    }
+    Program { nodes, intent }
+}
+
+/// A family: programs over one pool; about half are meant to fail in some way.
+pub fn family(r: &mut Rng, n: usize, msg_prefix: &str) -> Vec<Program> {
+    let pool = Pool::new(r);
+    let mut v = vec![];
+    for i in 0..n {
+        let mut o = GenOpts::default();
+        o.msg_tag = format!("{}{}m", msg_prefix, i);
+        o.min_blocks = 4;
+        o.max_blocks = 16;
+        if r.chance(9, 20) {
+            o.fail = Some(FAIL_KINDS[r.usize(FAIL_KINDS.len())].to_string());
+        }
+        v.push(gen(r, &pool, &o));
+    }
+    v
+}
